@@ -108,6 +108,32 @@ class Ctx:
         if not cond:
             raise AnalysisError(msg)
 
+    def depend(self, rule, prop, what, rules=None, mod=None, node=None, constructs=None):
+        """an obligation of this property that is decided by (some rules of) another property's check: run it on the same model and
+        require those obligations discharged.  Known findings of the other property stay its own (they are not violations there)."""
+        import importlib
+        cache = self.__dict__.setdefault("_dep_cache", {})
+        if prop not in cache:
+            dep = importlib.import_module("sa.rules." + prop.lower())
+            sub = Ctx(prop, self.model, self.tier)
+            try:
+                dep.check(sub)
+            except AnalysisError as e:
+                sub._dep_error = str(e)
+            cache[prop] = sub
+        sub = cache[prop]
+        known = {k["key"] for k in load_known() if k.get("status") == "known" and k["property"] == prop}
+        sel = [o for o in sub.obs if (rules is None or o.rule in rules) and (constructs is None or any(c in o.construct for c in constructs))]
+        bad = [o for o in sel if not o.ok and "%s|%s|%s" % (o.rule, o.construct, o.sig) not in known]
+        err = getattr(sub, "_dep_error", None)
+        if err and not bad:
+            raise AnalysisError("dependency %s of %s could not be analysed: %s" % (prop, self.prop, err))
+        if not sel:
+            raise AnalysisError("dependency %s %s of %s selected no obligation" % (prop, rules or "", self.prop))
+        self.ob(rule, "%s:dependency%s" % (prop, ("[" + ",".join(sorted(rules)) + "]") if rules else ""), not bad, found=["%s %s: %s" % (o.rule, o.construct, str(o.found)[:100]) for o in bad][:3] or
+                "%d obligations of %s discharged" % (len(sel), prop), required=what, mod=mod, node=node, sig="dep-%s:%s" % (prop, ",".join(sorted({o.rule for o in bad}))))
+        return sub
+
 
 def load_known():
     p = os.path.join(VERIF, "known_findings.json")
